@@ -30,7 +30,7 @@ FORMS = ['aggregate-rows', 'aggregate-value', 'aggregate-values', 'aggregate-len
          'aggregate-multi-none', 'rowreduce', 'rowgroupmap', 'fold', 'groupselectfirst', 'groupselectlast', 'groupselectmin', 'groupselectmax',
          'mergeduplicates', 'merge', 'groupcountdistinctvalues', 'rowgroupby', 'rowgroupby-callable', 'valuecounts', 'valuecounter']
 REQUIRED = (['form:' + f for f in FORMS] + ['key-none-group', 'equal-but-different-type-keys-in-one-group', 'single-row-group-first', 'single-row-group-last',
-            'compound-key', 'chunked', 'presorted', 'header-only', 'rows-handed-to-recorders', 'min/max-tie'])
+            'compound-key', 'chunked', 'presorted', 'header-only', 'rows-handed-to-recorders', 'min/max-tie', 'merge:header-only-table-not-last'])
 KPOOL = [None, 1, 1.0, True, 2, 'a', 'b', b'a', (1, 2), gen.D(2020, 1, 1)]
 LISTKEY = [1, 2]      # a list-valued key cell is equivalent to the tuple (1, 2) under the ordering (C04): one group
 VPOOL = [0, 1, 2, 3, 5, -1, 2.5]
@@ -189,16 +189,17 @@ def judge(case, ctx):
         if compare(got, exp) and sum(r[-1] for r in got[1:]) != len(rows):
             out.append({'kind': 'group-counts-do-not-add-up'})
     elif form in ('aggregate-multi-dict', 'aggregate-multi-list'):
-        spec = [('n', len), ('ids', 'id', list), ('total', 'v', sum), ('rows', rec_rows), ('pairs', ('id', 'v'), list)]
+        spec = [('n', len), ('ids', 'id', list), ('total', 'v', sum), ('rows', rec_rows), ('pairs', ('id', 'v'), list), ('jid', ('j', 'id'), list)]
         if form == 'aggregate-multi-dict':
             agg = OrderedDict((s[0], s[1] if len(s) == 2 else tuple(s[1:])) for s in spec)
         else:
             agg = [tuple(s) for s in spec]
         got = util.attempt_rows(lambda: petl.aggregate(src, keyarg, agg, **kw))
-        exp = [khdr + ('n', 'ids', 'total', 'rows', 'pairs')]
+        ji = hdr.index('j')
+        exp = [khdr + ('n', 'ids', 'total', 'rows', 'pairs', 'jid')]
         for g in groups:
             ids = [r[idi] for r in g[1]]
-            exp.append(keycells(g) + (len(g[1]), ids, sum(r[vi] for r in g[1]), ids, [(r[idi], r[vi]) for r in g[1]]))
+            exp.append(keycells(g) + (len(g[1]), ids, sum(r[vi] for r in g[1]), ids, [(r[idi], r[vi]) for r in g[1]], [(r[ji], r[idi]) for r in g[1]]))
         if compare(got, exp):
             check_log()
     elif form == 'aggregate-none':
@@ -285,12 +286,21 @@ def judge(case, ctx):
             got = [tuple(('CONFLICT', frozenset(c)) if isinstance(c, Conflict) else c for c in r) for r in got]
         compare(got, exp)
     elif form == 'merge':
-        half = len(table[1:]) // 2
-        a = [hdr] + table[1:1 + half]
-        b = [hdr] + table[1 + half:]
+        # split the rows over 2-4 input tables in order; header-only tables may end up anywhere
+        body = table[1:]
+        import random
+        prng = random.Random(util.fp(case))          # derived from the case, so the replay splits the same way
+        nparts = prng.randint(2, 4)
+        cuts = sorted(prng.randint(0, len(body)) for _ in range(nparts - 1))
+        parts, prev = [], 0
+        for c_ in cuts + [len(body)]:
+            parts.append([hdr] + body[prev:c_])
+            prev = c_
+        if any(len(p_) == 1 and any(len(q_) > 1 for q_ in parts[i_ + 1:]) for i_, p_ in enumerate(parts)):
+            ctx.seen('merge:header-only-table-not-last')
         mk = keyarg if not isinstance(keyarg, int) else 'k'
         kw2 = {k: v for k, v in kw.items() if k != 'presorted'}
-        got = util.attempt_rows(lambda: petl.merge(a, b, key=mk, **kw2))
+        got = util.attempt_rows(lambda: petl.merge(*parts, key=mk, **kw2))
         others = [i for i in range(len(hdr)) if i not in kidx]
         exp = [khdr + tuple(hdr[i] for i in others)]
         for g in groups:
